@@ -739,7 +739,7 @@ func (vm *VM) swapStack(a, b *[4]Addr, bSize StackShift) {
 	bs := Addr(bSize[0])
 	if as > 0 && bs > 0 {
 		tot := as + bs
-		if a[0]+tot+bs > vm.st[0] {
+		if a[0]+tot+bs >= vm.st[0] {
 			vm.moreIntStack()
 		}
 		s := vm.regs.int[a[0]+1:]
@@ -754,7 +754,7 @@ func (vm *VM) swapStack(a, b *[4]Addr, bSize StackShift) {
 	bs = Addr(bSize[1])
 	if as > 0 && bs > 0 {
 		tot := as + bs
-		if a[1]+tot+bs > vm.st[1] {
+		if a[1]+tot+bs >= vm.st[1] {
 			vm.moreFloatStack()
 		}
 		s := vm.regs.float[a[1]+1:]
@@ -769,7 +769,7 @@ func (vm *VM) swapStack(a, b *[4]Addr, bSize StackShift) {
 	bs = Addr(bSize[2])
 	if as > 0 && bs > 0 {
 		tot := as + bs
-		if a[2]+tot+bs > vm.st[2] {
+		if a[2]+tot+bs >= vm.st[2] {
 			vm.moreStringStack()
 		}
 		s := vm.regs.string[a[2]+1:]
@@ -784,7 +784,7 @@ func (vm *VM) swapStack(a, b *[4]Addr, bSize StackShift) {
 	bs = Addr(bSize[3])
 	if as > 0 && bs > 0 {
 		tot := as + bs
-		if a[3]+tot+bs > vm.st[3] {
+		if a[3]+tot+bs >= vm.st[3] {
 			vm.moreGeneralStack()
 		}
 		s := vm.regs.general[a[3]+1:]
